@@ -2,7 +2,9 @@ import WebAuthnModel.Basic.Bytes
 import WebAuthnModel.Model.Tpm
 /-
   Programs over dependency oracles.  The repository's own logic is written in Lean; every call
-  into a dependency (crypto, x509, json, url, go-tpm, go-jose, asn1) is an `ask`.  Theorems
+  into a dependency (crypto, x509, json, url, go-tpm, go-jose) is an `ask`; the ASN.1 values the
+  repository decodes itself with `encoding/asn1` (Keymaster key description, Apple nonce, AAGUID extension)
+  are decoded in Lean (`Model/Asn1`, `Model/KeyDesc`).  Theorems
   quantify over every `Env`; the driver interprets the same program in IO, the Go harness
   answering each question by calling the dependency itself.
 -/
@@ -61,15 +63,6 @@ structure PubAreaView where
   encoded : Option Bytes      -- Public.Encode()
   deriving Repr, DecidableEq, Inhabited
 
-/-- Android key description fields the verifier reads (decoded by `encoding/asn1`). -/
-structure KeyDescView where
-  challenge : Bytes
-  swAllApplications : Bool
-  teeAllApplications : Bool
-  teeOrigin : Int
-  teePurpose : List Int
-  deriving Repr, DecidableEq, Inhabited
-
 inductive SigScheme where
   | ecdsa | eddsa | pkcs1 | pss
   deriving Repr, DecidableEq, Inhabited
@@ -85,9 +78,6 @@ inductive Ask where
   | tpmCertInfo (raw : Bytes)
   | tpmPubArea (raw : Bytes)
   | tpmAlgHash (alg : Nat)                               -- tpm2.Algorithm.Hash(): some crypto.Hash id
-  | asn1OctetString (der : Bytes)                        -- asn1.Unmarshal(der, &[]byte) with no rest
-  | appleNonce (der : Bytes)
-  | keyDescription (der : Bytes)
   | sanView (certDer : Bytes)                            -- the SAN extensions of the certificate as encoding/asn1 parses them
   | safetyNet (raw : Bytes)                              -- parse + chain validation + claims
   | jwsHeaders (raw : Bytes)                             -- jwt.ParseSigned: number of signatures/headers
@@ -112,7 +102,6 @@ inductive Resp where
   | cert (c : CertView)
   | certInfo (c : CertInfoView)
   | pubArea (p : PubAreaView)
-  | keyDesc (k : KeyDescView)
   | safetyNet (s : SafetyNetView)
   | san (exts : List Tpm.SanExt)
   deriving Repr, DecidableEq, Inhabited
